@@ -135,6 +135,10 @@ RANDOM_ONLY = {
         dict(kind='slru', **slru(33, 5, 56, [1, 2, 3], random=(8, 1500))),
         dict(kind='2q', **twoq(40, 10, 20, 72, [1, 2, 3], random=(8, 1500))),
         dict(kind='2q', **twoq(16, 4, 8, 28, [1, 2, 3], random=(8, 1000))),
+        # ratio extremes at a larger size: quota = size, quota = size - 1, quota 0 with ghost = size
+        dict(kind='2q', **twoq(16, 16, 16, 30, [1, 2, 3], random=(8, 1000))),
+        dict(kind='2q', **twoq(16, 15, 8, 28, [1, 2, 3], random=(8, 1000))),
+        dict(kind='2q', **twoq(20, 0, 20, 36, [1, 2, 3], random=(8, 1000))),
         dict(kind='arc', **arc(32, 72, [1, 2, 3], random=(8, 1500))),
         dict(kind='arc', **arc(16, 36, [1, 2, 3], random=(8, 1000))),
         dict(kind='wtlfu', **wt(8, 20, 24, 100, 72, [1, 2, 3], random=(8, 1500))),
@@ -174,6 +178,10 @@ RANDOM_ONLY = {
         dict(kind='2q', **twoq(40, 10, 20, 72, [1, 2, 3], random=(40, 3000))),
         dict(kind='2q', **twoq(16, 4, 8, 28, [1, 2, 3], random=(40, 2000))),
         dict(kind='2q', **twoq(100, 25, 50, 200, [1, 2, 3], random=(20, 5000))),
+        dict(kind='2q', **twoq(16, 16, 16, 30, [1, 2, 3], random=(40, 2000))),
+        dict(kind='2q', **twoq(16, 15, 8, 28, [1, 2, 3], random=(40, 2000))),
+        dict(kind='2q', **twoq(20, 0, 20, 36, [1, 2, 3], random=(40, 2000))),
+        dict(kind='2q', **twoq(48, 47, 24, 90, [1, 2, 3], random=(20, 4000))),
         dict(kind='arc', **arc(32, 72, [1, 2, 3], random=(40, 3000))),
         dict(kind='arc', **arc(16, 36, [1, 2, 3], random=(40, 2000))),
         dict(kind='arc', **arc(100, 220, [1, 2, 3], random=(20, 5000))),
